@@ -1310,11 +1310,8 @@ func c01KeyByFullName(c *Ctx) {
 	c.Rule(rule, "maps keyed by a module are keyed by its full name, not by one component of it", 1)
 	p := c.P
 	var pkgs []*packages.Package
-	for _, rel := range []string{"private/bufpkg/bufimage", "private/bufpkg/bufmodule"} {
-		if q := p.Pkg(rel); q != nil {
-			pkgs = append(pkgs, q)
-		}
-	}
+	// every package of the module: wherever a map is keyed by something derived from a module's FullName
+	pkgs = p.ModulePkgs()
 	n := 0
 	for _, sf := range p.SSAFuncsOf(pkgs) {
 		for _, f := range allSSAFuncs(sf) {
@@ -1740,9 +1737,11 @@ func c10ValueStoredLast(c *Ctx) {
 	c.Rule(rule, "a struct value is stored into a map only after it is complete", 1)
 	p := c.P
 	var pkgs []*packages.Package
-	for _, rel := range []string{"private/buf/cmd/buf/command/dep/depgraph", "private/bufpkg/bufmodule", "private/buf/bufworkspace"} {
-		if q := p.Pkg(rel); q != nil {
-			pkgs = append(pkgs, q)
+	for _, pk := range p.ModulePkgs() {
+		rel := relPkg(pk.PkgPath)
+		// the packages that compute, represent or print module dependencies and workspaces
+		if rel == "private/buf/cmd/buf/command/dep/depgraph" || strings.HasPrefix(rel, "private/bufpkg/bufmodule") || rel == "private/buf/bufworkspace" || rel == "private/bufpkg/bufimage" || rel == "private/buf/bufctl" {
+			pkgs = append(pkgs, pk)
 		}
 	}
 	n := 0
@@ -1762,8 +1761,8 @@ func c10ValueStoredLast(c *Ctx) {
 						continue
 					}
 					al, ok := u.X.(*ssa.Alloc)
-					if !ok {
-						continue
+					if !ok || al.Comment == "complit" {
+						continue // the temporary of a composite literal written in place: nothing can name it afterwards
 					}
 					n++
 					// later mutations of the local
